@@ -19,6 +19,12 @@ class InfraError(Exception):
     pass
 
 
+class StructureError(InfraError):
+    """the code no longer has the shape the contracts are keyed to (loop added/removed, construct
+    without extraction rule): the unit cannot be verified; bin/check replays the clauses natively"""
+    pass
+
+
 def label_of(fname):
     for pat, lab in (('_VLabel', 'VLabel'), ('_NoLabel', 'NoLabel'), ('_uint', 'uint'), ('_real', 'real'),
                      ('DM__', 'uint'), ('UM__', 'uint'), ('DW__', 'real'), ('UW__', 'real')):
@@ -61,8 +67,10 @@ def closure(index, specs, fname):
         seen.add(f)
         ent = index['functions'].get(f)
         if ent is None or ent['status'] != 'ok':
-            raise InfraError('function %s needed by unit %s was not extracted: %s' % (
+            raise StructureError('function %s needed by unit %s was not extracted: %s' % (
                 f, fname, (ent or {}).get('error', 'not instantiated')))
+        if ent.get('structure_mismatch'):
+            raise StructureError('%s: %s' % (f, ent['structure_mismatch']))
         defined.append(f)
         for c in ent['callees']:
             if c == fname:
@@ -309,6 +317,10 @@ def run_unit(gen_dir, index, specs, fname, prop, work, timeout=300, solver='cadi
            'solver_s': 0.0, 'backend': solver}
     try:
         info = gen_unit(gen_dir, index, specs, fname, prop, cfile, extra_harness, debug, canaries)
+    except StructureError as e:
+        res['status'] = 'structure'
+        res['detail'] = str(e)
+        return res
     except InfraError as e:
         res['detail'] = str(e)
         return res
@@ -404,7 +416,7 @@ def run_unit(gen_dir, index, specs, fname, prop, work, timeout=300, solver='cadi
         res['status'] = 'infra'
         res['detail'] = 'loop contract silently dropped (no loop_invariant_step obligation)'
     elif nloops and not has_loop_contract:
-        res['status'] = 'infra'
+        res['status'] = 'structure'
         res['detail'] = 'unit has %d loop(s) without loop contract' % nloops
     elif n_post == 0 and any(c.kind == 'ensures' and c.enabled(prop) for c in specs.contracts[fname]):
         res['status'] = 'infra'
